@@ -529,7 +529,7 @@ Definition app_callback (cx : ctx) (app k : Z) (args : list Z) (w : net) : net *
 (* ================================================================== *)
 Definition get_socks (w : net) (srv : Z) : socks := mget (mkSocks 0 5 0 2048 [0; 0; 0] 0 false []) (w_socks w) srv.
 Definition set_socks (w : net) (srv : Z) (s : socks) : net := w <| w_socks := mset (w_socks w) srv s |>.
-Definition sconn0 : sconn := mkSconn 0 [] 0 0 [] 0 ep_none.
+Definition sconn0 : sconn := mkSconn 0 [] 0 0 [] 0 ep_none [] [] 0.
 Definition get_sconn (w : net) (srv c : Z) : sconn := mget sconn0 (so_conns (get_socks w srv)) c.
 Definition set_sconn (w : net) (srv c : Z) (x : sconn) : net :=
   let s := get_socks w srv in set_socks w srv (s <| so_conns := mset (so_conns s) c x |>).
@@ -543,6 +543,7 @@ Definition so_server (srv c : Z) : Z := so_base srv c + 1.
 Definition so_bindacc (srv c : Z) : Z := so_base srv c + 2.
 Definition so_udp (srv c : Z) : Z := so_base srv c + 3.
 Definition so_rslv (srv c : Z) : Z := so_base srv c + 4.
+Definition so_urslv (srv c : Z) : Z := so_base srv c + 5.
 Definition hid_so (srv c k : Z) : Z := hid_app (so_app srv c) k.
 
 Definition s8 (b : Z) : Z := if 128 <=? b then b - 256 else b.     (* a byte read through a plain (signed) char *)
@@ -662,6 +663,7 @@ Definition socks_new_conn (srv : Z) (w : net) : net :=
   let w := set_tcp w (so_bindacc srv c) (tcp_fresh node true) in
   let w := set_udp w (so_udp srv c) (udp_fresh node 0) in
   let w := set_rslv w (so_rslv srv c) (mkRslv node []) in
+  let w := set_rslv w (so_urslv srv c) (mkRslv node []) in
   set_sconn w srv c sconn0.
 
 Definition socks_new (cx : ctx) (srv node port version flags : Z) (w : net) : net * list kc :=
@@ -705,6 +707,22 @@ Definition socks_request_decide (v : variant) (version : Z) (buf : list Z) : sde
       if atyp =? 1 then SRead 5 5 5
       else if atyp =? 3 then (if command =? 2 then SClose true else SRead 5 (byte_at buf 4 + 2) 6)
       else SClose true.
+
+(* the lambda of on_read_udp's async_resolve: send to the first address that takes the datagram
+   and remember the name for it *)
+Fixpoint socks_udp_send_first (cx : ctx) (srv c : Z) (payload name : list Z) (eps : list Z) (w : net) : net * list kc :=
+  match eps with
+  | f :: a :: pt :: rest =>
+      let target := {| e_addr := {| a_v6 := negb (f =? 0); a_val := a |}; e_port := pt |} in
+      let '(err, _, w, cs) := udp_send_to cx (so_udp srv c) [payload] target w in
+      if err =? EC_OK then
+        let x := get_sconn w srv c in
+        let known := existsb (fun p => addr_eqb (fst p) (e_addr target) || list_eqb (snd p) name) (sc_names x) in
+        (if known then w else set_sconn w srv c (x <| sc_names := sc_names x ++ [(e_addr target, name)] |>), cs)
+      else
+        let (w, cs2) := socks_udp_send_first cx srv c payload name rest w in (w, cs ++ cs2)
+  | _ => (w, [])
+  end.
 
 (* the protocol state machine of one connection *)
 Definition socks_conn_step (cx : ctx) (srv c k : Z) (args : list Z) (w : net) : net * list kc :=
@@ -840,7 +858,7 @@ Definition socks_conn_step (cx : ctx) (srv c k : Z) (args : list Z) (w : net) : 
       else
         let (w, c0) := tcp_abort_recv (so_server srv c) w in
         let (w, c1) := tcp_async_read_impl (so_server srv c) [65536] (hid_so srv c 15) w in (w, c0 ++ c1)
-  (* on_read_udp (IPv4 headers; the host-name form and datagrams shorter than a header are not modelled) *)
+  (* on_read_udp *)
   | 17, e :: n :: _ :: _ :: fam :: fa :: fp :: data =>
       if negb (e =? EC_OK) then (w, [])
       else
@@ -848,26 +866,57 @@ Definition socks_conn_step (cx : ctx) (srv c k : Z) (args : list Z) (w : net) : 
         let from := {| e_addr := {| a_v6 := negb (fam =? 0); a_val := fa |}; e_port := fp |} in
         let ep := sc_udp_ep x in
         let ep := if (e_port ep =? 0) && addr_eqb (e_addr from) (e_addr ep) then {| e_addr := e_addr ep; e_port := fp |} else ep in
-        let w := set_sconn w srv c (x <| sc_udp_ep := ep |>) in
-        let '(w, c0) :=
-          if ep_eqb from ep then
-            if n <? 10 then (w, [KLog (TAG_DIAG, [17])])
-            else
-              let atyp := s8 (byte_at data 3) in
-              if atyp =? 1 then
-                let '(_, _, w, cs) := udp_send_to cx u [skipn 10 data]
-                                        {| e_addr := {| a_v6 := false; a_val := be32_at data 4 |}; e_port := be16_at data 8 |} w in
-                (w, cs)
-              else if atyp =? 3 then (w, [KLog (TAG_DIAG, [18])])
-              else (w, [])
-          else if a_v6 (e_addr from) then (w, [KLog (TAG_DIAG, [19])])
-          else
-            let hdr := [0; 0; 0; 1] ++ be32_bytes fa ++ be16_bytes fp in
-            let '(_, _, w, cs) := udp_send_to cx u [hdr; data] ep w in (w, cs) in
-        let (w, c1) := udp_abort_recv u w in
-        let (w, c2) := udp_async_recv_impl cx u [1500] true (hid_so srv c 17) w in
-        (w, c0 ++ c1 ++ c2)
+        let x := x <| sc_udp_ep := ep |> in
+        let w := set_sconn w srv c x in
+        let rearm (wc : net * list kc) :=
+          let (w, c0) := wc in
+          let (w, c1) := udp_abort_recv u w in
+          let (w, c2) := udp_async_recv_impl cx u [1500] true (hid_so srv c 17) w in
+          (w, c0 ++ c1 ++ c2) in
+        if ep_eqb from ep then
+          let atyp := if n <? 4 then 0 else s8 (byte_at data 3) in
+          let header := if atyp =? 1 then 10 else if (atyp =? 3) && (5 <=? n) then 7 + byte_at data 4 else 5 in
+          if negb (d32_socks_udp_header v) && ((n <? 10) || ((atyp =? 3) && ((128 <=? byte_at data 4) || (n <? 7 + byte_at data 4))))
+          then (w, [KLog (TAG_FUEL, [21])])       (* the pinned tree: stale buffer bytes / length_error thrown out of run() *)
+          else if n <? header then rearm (w, [])                            (* truncated header: dropped *)
+          else if atyp =? 1 then
+            let '(_, _, w, cs) := udp_send_to cx u [skipn 10 data]
+                                    {| e_addr := {| a_v6 := false; a_val := be32_at data 4 |}; e_port := be16_at data 8 |} w in
+            rearm (w, cs)
+          else if atyp =? 3 then
+            let len := byte_at data 4 in
+            let name := firstn (Z.to_nat len) (skipn 5 data) in
+            let port := be16_at data (Z.to_nat (5 + len)) in
+            let payload := skipn (Z.to_nat (7 + len)) data in
+            match List.find (fun p => list_eqb (snd p) name) (sc_names x) with
+            | Some (a, _) =>
+                let '(_, _, w, cs) := udp_send_to cx u [payload] {| e_addr := a; e_port := port |} w in
+                if d32_socks_udp_header v then rearm (w, cs) else (w, cs)      (* the pinned tree returned without re-arming *)
+            | None =>
+                let i := sc_npending x in
+                let w := set_sconn w srv c (x <| sc_pending := mset (sc_pending x) (i mod 16) (payload, name) |> <| sc_npending := i + 1 |>) in
+                let q := match make_address name with Some a => RLit a | None => RHost (host_id name) end in
+                let (w, cs) := rslv_resolve cx (so_urslv srv c) q port (hid_so srv c (32 + i mod 16)) w in
+                rearm (w, cs)
+            end
+          else rearm (w, [])
+        else if a_v6 (e_addr from) then (w, [KLog (TAG_DIAG, [19])])
+        else
+          let hdr := match List.find (fun p => addr_eqb (fst p) (e_addr from)) (sc_names x) with
+                     | Some (_, name) => [0; 0; 0; 3; Z.of_nat (List.length name) mod 256] ++ name ++ be16_bytes fp
+                     | None => [0; 0; 0; 1] ++ be32_bytes fa ++ be16_bytes fp
+                     end in
+          let '(_, _, w, cs) := udp_send_to cx u [hdr; data] ep w in
+          rearm (w, cs)
   | 17, _ => (w, [])
+  | kk, e :: nn :: eps =>
+      (* the UDP resolver answers for a datagram that waited for its host name *)
+      if (32 <=? kk) && (kk <? 48) then
+        if negb (e =? EC_OK) then (w, [])
+        else
+          let '(payload, name) := mget ([], []) (sc_pending x) (kk - 32) in
+          socks_udp_send_first cx srv c payload name eps w
+      else (w, [])
   | _, _ => (w, [])
   end.
 
